@@ -35,6 +35,14 @@ def gen(rng, tier, idx):
     vdeg = rng.choice([3, 3, 3, 2, 4, 5])
     if npts[3] >= vdeg + 2:
         ckw['splineDegrees'] = [3, 3, 3, vdeg]      # degree 3 takes the uniform-cubic path
+    if rng.random() < 0.2:
+        # other degrees in r, theta, z: the nodes move (cell midpoints for even degrees), the v integral must not care
+        dg = ckw.get('splineDegrees') or [3, 3, 3, 3]
+        dg = [rng.choice([2, 3, 4, 5]) for _ in range(3)] + [dg[3]]
+        for d in range(3):
+            npts[d] = max(npts[d], dg[d] + 3)
+        ckw['splineDegrees'] = dg
+        ckw['npts'] = [int(x) for x in npts]
     grids = phys.pick_grids(rng, npts, rng.choice([1, 1, 2]))
     if rng.random() < 0.3:
         grids = [[1, 1]] + grids
@@ -195,7 +203,7 @@ def shrink(case):
     if case['storage'] != 'float64':
         yield dict(case, storage='float64')
     for d in range(4):
-        lo = 7 if d == 2 else 5
+        lo = max(7 if d == 2 else 5, (case['ckw'].get('splineDegrees') or [3, 3, 3, 3])[d] + 3)
         if case['ckw']['npts'][d] > lo:
             n2 = list(case['ckw']['npts'])
             n2[d] -= 1
